@@ -26,7 +26,11 @@ TV      one pipeline per shard, two trace-validation passes around the harness:
                         (field `unchanged`; key sig0/verify-modifies-input), and after every FAILED verification the
                         matching KEY is tried on the very same copy ("after-<variant>" events: must give the verdict of
                         the message as received).  Tampered / truncated copies are checked for modification as well.
-        Quick = three parallel pipelines: the nine fixed messages; 2 x 16 random messages.
+                        RSA keys: a second KEY with the same owner, algorithm and KEY TAG (two modulus words exchanged)
+                        is tried before / after the signer's own KEY, alternating per (signer, key): it never verifies.
+                        A small message is signed with committed 4096-bit (algorithms 5, 8, 10) and 512-bit (5, 8) keys.
+                        Every fourth random message is signed with a SIG value that has signed another message before.
+        Quick = three parallel pipelines: the ten fixed messages; 2 x 16 random messages.
         Times: no assertion closer than 90 s to a window edge; the pipeline dies (exit 2) if it takes > 600 s.
 
 Mutants (checks/mutants/C18), stage that catches each on the quick tier:
@@ -94,8 +98,8 @@ def run(ctx):
     if ctx.quick:
         algs = PAIRS[ctx.seed % 3]
         # shard 0 starts with the six ARCOUNT-boundary messages (254..257, 511, 512 additional records, valid window)
-        # (pipeline 0 is just those nine fixed messages; 1 and 2 are 16 random messages each: every window kind twice)
-        jobs = [lambda k=k: pipeline(ctx, binp, str(k), ctx.seed * 1000 + k, 9 if k == 0 else 16, algs, ar=(k == 0)) for k in range(3)]
+        # (pipeline 0 is just those ten fixed messages; 1 and 2 are 16 random messages each: every window kind twice)
+        jobs = [lambda k=k: pipeline(ctx, binp, str(k), ctx.seed * 1000 + k, 10 if k == 0 else 16, algs, ar=(k == 0)) for k in range(3)]
         vp.parallel(jobs, maxpar=3)
     else:
         jobs = [lambda k=k: pipeline(ctx, binp, str(k), ctx.seed * 1000 + k, 50, ALL, ar=(k % 4 == 0)) for k in range(12)]
